@@ -45,9 +45,12 @@ class Check:
         self.obligations = 0
         self.discharged = 0
         self.trusted_base = []
+        self.only = None         # replay: report only this instance key
 
     # -------------------------------------------------------------- recording
     def ok(self, rule, key, where='', detail='', evals=1, nontrivial=True, sample=None):
+        if self.only and key != self.only:
+            return
         self.instances.append(dict(rule=rule, key=key, status='OK', where=where, detail=detail))
         self.evaluations += evals
         self.obligations += 1
@@ -62,6 +65,8 @@ class Check:
         """key: stable identifier rule:function:slot (no line numbers)"""
         if key in self.violations or key in self.known_hits:
             return      # one report per instance key
+        if self.only and key != self.only:
+            return
         self.evaluations += evals
         self.obligations += 1
         if (self.pid, key) in self.known:
@@ -131,9 +136,10 @@ class Check:
         ev = dict(property_id=self.pid, tier=self.tier, seed=self.seed, level=self.level,
                   coverage=cov, assumptions=self.assumptions, wall_s=round(wall, 3),
                   violations=len(self.violations))
-        os.makedirs(EVIDENCE_DIR, exist_ok=True)
-        with open(os.path.join(EVIDENCE_DIR, '%s.json' % self.pid), 'w') as f:
-            json.dump(ev, f, indent=1, default=str)
+        if not self.only:
+            os.makedirs(EVIDENCE_DIR, exist_ok=True)
+            with open(os.path.join(EVIDENCE_DIR, '%s.json' % self.pid), 'w') as f:
+                json.dump(ev, f, indent=1, default=str)
         n_ok = sum(1 for i in self.instances if i['status'] == 'OK')
         print('SUMMARY property=%s tier=%s instances=%d ok=%d known=%d violations=%d evaluations=%d wall=%.1fs' % (
             self.pid, self.tier, len(self.instances), n_ok, len(self.known_hits), len(self.violations),
